@@ -30,6 +30,19 @@ CONSTANTS
   Meaning     \* token -> [gg |-> Seq(pattern), lw |-> Seq([k |-> key, v |-> token])]
               \* how a stored value token parses as grave goods / last will
 
+\* Is deviation f switched on?  Written at the exact place where the pinned code
+\* and the intended behaviour part, and evaluated only when they really differ
+\* on the current state, so that the TLC registers record which deviations an
+\* execution actually needed (read by the trace specs; harmless elsewhere).
+FlagIdx(f) ==
+  CASE f = "D_CAS_GHOST" -> 1 [] f = "D_HASH_ZERO" -> 2 [] f = "D_LAZY_HASH" -> 3
+    [] f = "D_SYS_WILDCARD" -> 4 [] f = "D_PUBLISH_SYS" -> 5 [] f = "D_IMPORT_NO_LS" -> 6
+    [] f = "D_LOCK_GARBAGE" -> 7 [] f = "D_GGLW_PARSE" -> 8 [] OTHER -> 9
+NFlags == 9
+FlagNames == <<"D_CAS_GHOST", "D_HASH_ZERO", "D_LAZY_HASH", "D_SYS_WILDCARD", "D_PUBLISH_SYS",
+               "D_IMPORT_NO_LS", "D_LOCK_GARBAGE", "D_GGLW_PARSE", "D_OTHER">>
+Flag(f) == f \in Dev /\ TLCSet(FlagIdx(f), TRUE)
+
 INT  == "int"                     \* INTERNAL_CLIENT_ID
 SYS  == "$SYS"
 CLIENTS == "clients"
@@ -187,7 +200,7 @@ Insert(S, path, new, force) ==
       d       == Decide(st1[path], new, force)
   IN IF d.err # -1
        THEN [err |-> d.err,
-             st  |-> IF "D_CAS_GHOST" \in Dev THEN st1 ELSE st0,   \* nodes stay behind
+             st  |-> IF created # {} /\ Flag("D_CAS_GHOST") THEN st1 ELSE st0,   \* nodes stay behind
              len |-> S.len, changed |-> FALSE, lsn |-> EmptyF]
        ELSE LET st2 == [st1 EXCEPT ![path] = d.e]
             IN [err |-> -1, st |-> st2,
@@ -220,7 +233,7 @@ NCollect(st, p, rem) ==
     IF h = MULTI THEN
       IF t # <<>> THEN [err |-> TRUE, kvs |-> {}]
       ELSE [err |-> FALSE,
-            kvs |-> (IF "D_HASH_ZERO" \in Dev /\ st[p].k # "none" THEN {<<p, st[p]>>} ELSE {})
+            kvs |-> (IF st[p].k # "none" /\ Flag("D_HASH_ZERO") THEN {<<p, st[p]>>} ELSE {})
                     \cup {<<q, st[q]>> : q \in {x \in Desc(st, p) : st[x].k # "none"}}]
     ELSE IF h = WILD THEN
       LET rs == {NCollect(st, q, t) : q \in Children(st, p)}
@@ -273,9 +286,9 @@ NDelM(st, p, rem, skip) ==
     IF h = MULTI THEN
       IF t # <<>> THEN [err |-> TRUE, st |-> st, kvs |-> {}, lsn |-> EmptyF]
       ELSE
-        LET zero == "D_HASH_ZERO" \in Dev
+        LET zero == st[p].k # "none" /\ Flag("D_HASH_ZERO")
             gone == {q \in Desc(st, p) : Len(q) = Len(p) \/ Head(SubSeq(q, Len(p) + 1, Len(q))) \notin skip}
-            kvs  == (IF zero /\ st[p].k # "none" THEN {<<p, st[p]>>} ELSE {})
+            kvs  == (IF zero THEN {<<p, st[p]>>} ELSE {})
                     \cup {<<q, st[q]>> : q \in {x \in gone : st[x].k # "none"}}
             \* every node of the collected sub-tree that has children tells its
             \* ls-subscribers "[]" (store.rs:593-603)
@@ -315,8 +328,8 @@ DoCGet(S, path) ==
 
 PGetKvs(S, pat) ==
   \* [err, kvs] ; an illegal pattern is rejected up front unless D_LAZY_HASH
-  IF "D_LAZY_HASH" \notin Dev /\ ~Legal(pat) THEN [err |-> TRUE, kvs |-> {}]
-  ELSE NCollect(S.store, <<>>, pat)
+  LET r == NCollect(S.store, <<>>, pat) IN
+  IF ~Legal(pat) /\ (r.err \/ ~Flag("D_LAZY_HASH")) THEN [err |-> TRUE, kvs |-> {}] ELSE r
 
 DoPGet(S, pat) ==
   LET r == PGetKvs(S, pat) IN
@@ -330,9 +343,9 @@ DoLs(S, parent) ==
 
 DoPLs(S, pat) ==
   IF pat = <<>> THEN DoLs(S, <<>>)
-  ELSE IF "D_LAZY_HASH" \notin Dev /\ (\E i \in 1..Len(pat) : pat[i] = MULTI) THEN Res(S, Err(E_MULTI))
   ELSE LET r == NCollectChildren(S.store, <<>>, pat) IN
-       IF r.err THEN Res(S, Err(E_MULTI)) ELSE Res(S, RList(r.segs))
+       IF r.err \/ ((\E i \in 1..Len(pat) : pat[i] = MULTI) /\ ~Flag("D_LAZY_HASH"))
+         THEN Res(S, Err(E_MULTI)) ELSE Res(S, RList(r.segs))
 
 DoLen(S) == Res(S, RLen(S.len))
 
@@ -351,7 +364,7 @@ DoWrite(S, path, new, c, force) ==
   LET ro == ReadOnlyCheck(path, c) IN
   IF ro # -1 THEN Res(S, Err(ro))
   ELSE IF HasWildcard(path) THEN Res(S, Err(FirstWildErr(path)))
-  ELSE IF "D_GGLW_PARSE" \notin Dev /\ RegistrationUnparsable(path, new.v) THEN Res(S, Err(E_IO))
+  ELSE IF RegistrationUnparsable(path, new.v) /\ ~Flag("D_GGLW_PARSE") THEN Res(S, Err(E_IO))
   ELSE LET i == Insert(S, path, new, force) IN
     IF i.err # -1 THEN Res(WithStore(S, i.st, i.len), Err(i.err))
     ELSE IF RegistrationUnparsable(path, new.v)
@@ -381,11 +394,12 @@ DoDelete(S, path, c) ==
 DoPDelete(S, pat, c) ==
   LET ro == ReadOnlyCheck(pat, c) IN
   IF ro # -1 THEN Res(S, Err(ro))
-  ELSE IF "D_LAZY_HASH" \notin Dev /\ ~Legal(pat) THEN Res(S, Err(E_MULTI))
   ELSE
-    LET skip == IF "D_SYS_WILDCARD" \notin Dev /\ ReachesSysByWildcard(pat, c) THEN {SYS} ELSE {}
-        d    == NDelM(S.store, <<>>, pat, skip)
-    IN IF d.err THEN Res(S, Err(E_MULTI))
+    LET d0 == NDelM(S.store, <<>>, pat, {SYS})      \* intended: a client wildcard stays out of $SYS
+        d1 == NDelM(S.store, <<>>, pat, {})
+        d  == IF ~ReachesSysByWildcard(pat, c) THEN d1
+              ELSE IF d0 = d1 THEN d0 ELSE IF Flag("D_SYS_WILDCARD") THEN d1 ELSE d0
+    IN IF d.err \/ (~Legal(pat) /\ ~Flag("D_LAZY_HASH")) THEN Res(S, Err(E_MULTI))
        ELSE
          LET n  == Cardinality(d.kvs)
              S2 == WithStore(S, d.st, IF S.len >= n THEN S.len - n ELSE 0)
@@ -397,7 +411,7 @@ DoPDelete(S, pat, c) ==
 \* publish (worterbuch.rs:438-445): no store access, no read-only check
 DoPublish(S, path, v) ==
   IF HasWildcard(path) THEN Res(S, Err(FirstWildErr(path)))
-  ELSE IF "D_PUBLISH_SYS" \notin Dev /\ path[1] = SYS THEN Res(S, Err(E_RO))
+  ELSE IF path[1] = SYS /\ ~Flag("D_PUBLISH_SYS") THEN Res(S, Err(E_RO))
   ELSE [Res(S, Ok) EXCEPT !.ev = Notify(S, path, v, TRUE, FALSE)]
 
 DoSPubInit(S, tid, path, c) ==
@@ -419,8 +433,8 @@ DoImport(S, imp) ==
       Changed(q) == ~(q \in DOMAIN S.store /\ S.store[q] = imp[q])
       Ev(acc, q) == UnionEv(acc, Notify(S2, q, imp[q].v, Changed(q), FALSE))
       created == DOMAIN st1 \ DOMAIN S.store
-      lsn == IF "D_IMPORT_NO_LS" \in Dev THEN EmptyF
-             ELSE [p \in {Parent(q) : q \in created} |-> ChildSegs(st1, p)]
+      lsnI == [p \in {Parent(q) : q \in created} |-> ChildSegs(st1, p)]
+      lsn == IF LsNotify(S2, lsnI) # EmptyF /\ Flag("D_IMPORT_NO_LS") THEN EmptyF ELSE lsnI
   IN [s |-> S2, rep |-> Ok, ev |-> FoldS(Ev, EmptyF, ins), ls |-> LsNotify(S2, lsn), lk |-> {}]
 
 (***************************************************************************)
@@ -440,7 +454,7 @@ DoPSubscribe(S, c, tid, pat, unique, liveOnly) ==
       sub == [id |-> id, pat |-> pat, kind |-> "p", unique |-> unique]
       S2  == [S EXCEPT !.subs = @ \cup {sub}, !.subIds = (id :> pat) @@ @]
       r   == PGetKvs(S, pat)
-  IN IF "D_LAZY_HASH" \notin Dev /\ ~Legal(pat) THEN Res(S, Err(E_MULTI))
+  IN IF ~Legal(pat) /\ ((~liveOnly /\ r.err) \/ ~Flag("D_LAZY_HASH")) THEN Res(S, Err(E_MULTI))
      ELSE IF liveOnly THEN Res(S2, Ok)
      ELSE IF r.err THEN Res(S, Err(E_MULTI))
      ELSE [Res(S2, Ok) EXCEPT
@@ -516,7 +530,8 @@ DoAcquireLock(S, path, c, req) ==
 
 \* Store::unlock + Lock::release
 Unlock(S, path, c) ==
-  LET S1 == IF "D_LOCK_GARBAGE" \in Dev THEN GetOrCreateLockNode(S, path) ELSE S IN
+  LET S1 == IF ~(Prefixes(path) \subseteq S.lockNodes) /\ Flag("D_LOCK_GARBAGE")
+              THEN GetOrCreateLockNode(S, path) ELSE S IN
   IF path \in DOMAIN S1.locks THEN
     LET l == S1.locks[path] IN
     IF l.holder = c THEN
